@@ -22,6 +22,13 @@ def claim(pid, category, text, note, technique, ref):
     CLAIMS[pid] = (category, text, note, technique, ref)
 
 
+def addendum(pid, text):
+    """Rules added in the build rounds (red-team strengthening)."""
+    cat, t, note, tech, ref = CLAIMS[pid]
+    CLAIMS[pid] = (cat, t + ' Added in the build rounds: ' + text, note,
+                   tech, ref)
+
+
 exec(open(os.path.join(HERE, 'tools', 'claims.py')).read())
 
 ALL = ['C%02d' % i for i in range(1, 19)]
